@@ -51,6 +51,31 @@ def flavour_batch():
         o = other[t]
         m.add_func('i' + t, o, (), const(o, 9) + local_get(0) + local_get(1) + memop(code, 0, 4), export='f%d' % k)
         cases.append(Case('f%d' % k, 'i' + t, o, 1 if t in 'if' else 2, -1, '%s above an operand of another type' % nm)); k += 1
+    # the instructions WITHOUT a result (bulk operations, data.drop) and memory.grow / memory.size in the middle of an expression: a value pushed
+    # before them is consumed after them, a store / load that follows takes ITS OWN operands (flat wrappers cannot see an operand that an
+    # emitter forgets to pop)
+    m.datas.append(('passive', 0, b'', bytes([0x00, 0xc1, 0xc2, 0xc3, 0x00, 0xc5, 0x00, 0x00])))
+    m.datacount = True
+    seg = len(m.datas) - 1
+    K = i64_const(0x1234567890abcd)
+    inputsets.append(('explicit', [(100, 0, 8), (65536 - 8, 2, 6), (7, 8, 0), (2 * 65536 - 4, 1, 4)]))
+    i3 = len(inputsets) - 1
+    inputsets.append(('explicit', [(300, 0x5a5a5a5a), (65536 - 2, 0x11223344)]))
+    i2 = len(inputsets) - 1
+    def fx(desc, params, result, body, iset):
+        nonlocal k
+        m.add_func(params, result, (), body, export='f%d' % k)
+        cases.append(Case('f%d' % k, params, result or 'v', iset, -1, desc)); k += 1
+    a3 = local_get(0) + local_get(1) + local_get(2)
+    fx('memory.init above an i64 operand that is returned', 'iii', 'I', K + a3 + memory_init(seg), i3)
+    fx('memory.copy above an i64 operand that is returned', 'iii', 'I', K + a3 + memory_copy(), i3)
+    fx('memory.fill above an i64 operand that is returned', 'iii', 'I', K + a3 + memory_fill(), i3)
+    fx('data.drop above an i64 operand that is returned', 'iii', 'I', K + data_drop(seg), i3)
+    fx('store address pushed BEFORE a memory.init, value after it', 'ii', 'i', local_get(0) + i32_const(40) + i32_const(0) + i32_const(8) + memory_init(seg) + local_get(1) + memop(0x36, 0, 0) + local_get(0) + memop(0x28, 0, 0), i2)
+    fx('load after a memory.copy in the same block', 'ii', 'i', i32_const(500) + i32_const(0) + i32_const(16) + memory_copy() + local_get(0) + memop(0x28, 0, 0) + local_get(1) + op(0x6a), i2)
+    fx('if (result i32) whose arm ends with memory.fill; value', 'ii', 'i', local_get(1) + if_('i') + local_get(0) + i32_const(0x77) + i32_const(4) + memory_fill() + local_get(0) + memop(0x28, 0, 0) + ELSE + i32_const(9) + END, i2)
+    fx('memory.grow above an operand, then add', 'ii', 'I', K + local_get(1) + i32_const(0xff) + op(0x71) + memory_grow() + op(0xad) + op(0x7c), i2)
+    fx('memory.size above an operand, then add', 'ii', 'I', K + memory_size() + op(0xad) + op(0x7c), i2)
     b = Batch(m.encode(), cases, inputsets)
     b.impl_mem = 'ls_cur_inst->m0'
     b.compare_mem = True
